@@ -200,13 +200,6 @@ Proof.
   apply (hzi_chain C cget st I).
 Qed.
 
-(** the model's next reordering finds (and drops) the real chain *)
-Theorem histz_chain_found : forall n st, hreach_z n st -> 0 < nlevels (hz_s C st) ->
-  forall l, l < nlevels (hz_s C st) -> exists t, ztaut (hz_s C st) l = Some t.
-Proof.
-  intros n st R _ l _. apply ztaut_total. apply (hzi_chain C cget st (hreach_z_inv n st R)).
-Qed.
-
 (** ** Canonicity *)
 
 Theorem hinvz_canonical : forall st, HInvZ st ->
